@@ -300,22 +300,30 @@ def check_event(pred, ctext, r=None):
 
     problems = []
     lp = absyn.lift(pred)
-    for alias in ('A', 'Z'):
+    from hpl.ast.events import EventType
+
+    routes = {
+        'publish()': lambda alias: A.HplSimpleEvent.publish('t', predicate=pred, alias=alias),
+        'constructor': lambda alias: A.HplSimpleEvent('t', pred, EventType.PUBLISH, alias=alias),
+        'but(alias=)': lambda alias: A.HplSimpleEvent.publish('t', predicate=pred).but(alias=alias),
+        'but(predicate=)': lambda alias: A.HplSimpleEvent.publish('t', alias=alias).but(predicate=pred),
+    }
+    for alias, (route, make) in [(a, rt) for a in ('A', 'Z') for rt in routes.items()]:
         if r is not None:
             r.count('transitions')
         try:
-            e = A.HplSimpleEvent.publish('t', predicate=pred, alias=alias)
+            e = make(alias)
         except TypeError:
             if r is not None:
                 r.notes['event rejected: TypeError'] += 1
             continue
         except Exception as ex:  # noqa: BLE001
-            problems.append((f'event construction raised {type(ex).__name__}', f't as {alias} {{ {ctext} }}: {str(ex)[:160]}'))
+            problems.append((f'event construction raised {type(ex).__name__} [{route}]', f't as {alias} {{ {ctext} }}: {str(ex)[:160]}'))
             continue
         le = absyn.lift(e)
         exp = lp if lp[0] != 'pred' else ('pred', subst_this_for_var(lp[1], alias))
         if absyn.canon(le[3]) != absyn.canon(exp):
-            problems.append(('event does not store the predicate with the alias rewritten to the message', f't as {alias} {{ {ctext} }} stores {txt(cond_of(le[3]))}'))
+            problems.append(('event does not store the predicate with the alias rewritten to the message', f't as {alias} {{ {ctext} }} [{route}] stores {txt(cond_of(le[3]))}'))
         try:
             refs = set(e.external_references())
         except Exception as ex:  # noqa: BLE001
